@@ -102,6 +102,9 @@ func recoverFile(info types.SegmentInfo, wf types.WritableFile, bufPool *sync.Po
 func (w *Writer) initEmpty() error {
 	// Write header into write buffer to be written out with the first commit.
 	w.writer.writeOffset = 0
+	// An empty segment can't be sealed. recoverTail may have seen an index frame
+	// that was part of a torn write that we are discarding.
+	w.writer.indexStart = 0
 	w.ensureBufCap(fileHeaderLen)
 	w.writer.commitBuf = w.writer.commitBuf[:fileHeaderLen]
 
@@ -176,6 +179,11 @@ func (w *Writer) recoverTail() error {
 
 	// Whichever path we take, fix up the commitIdx before we leave
 	defer func() {
+		// An index frame that is not covered by the commit we recovered to was
+		// part of a torn (uncommitted) write so this segment is not sealed.
+		if w.writer.indexStart >= uint64(w.writer.writeOffset) {
+			w.writer.indexStart = 0
+		}
 		ofs := w.getOffsets()
 		if len(ofs) > 0 {
 			// Non atomic is OK because this file is not visible to any other threads
